@@ -13,7 +13,7 @@ EXPLANATION = (
     "r + gamma*(min(q1_tgt,q2_tgt)(s',a') - alpha*logpi(a'))*NT with (a', logpi) items of one action_and_log_prob call on s'; "
     "C07.3 the non-terminal mask is the Boolean function ~done | timeout (truth-table canonical form) in both siblings; "
     "C07.7 ReplayBuffer.add writes reward, done, timeout and successor observation of one transition at one ring index (rows the target combines belong together); C07.6 composed with the collector's stored flags (AbstractOffPolicyAlgorithm.step) the mask is ~terminal; C07.4 gradient scope: every filter_value_and_grad differentiates parameter 0 only, targets and target networks arrive "
-    "through other parameters, actor update does not reassign critics; C07.5 both critics regress onto one target node."
+    "through other parameters, actor update does not reassign critics; C07.5 both critics regress onto one target node; C07.10 the two target critics the minimum is taken over start (SAC.reset) as their own online critics, which are built from different keys."
 )
 ASSUMPTIONS = [
     "eqx.filter_value_and_grad differentiates its first positional argument only (Equinox contract)",
@@ -371,5 +371,9 @@ def check(s):
     check_add(s, "C07.7", "C07.7")
     from .util import no_late_binding
     no_late_binding(s, "C07.7", ("lerax.buffer", "lerax.algorithm.dqn", "lerax.algorithm.sac"), necessary_for="every field of a stored transition comes from the same insertion (a function value built in a loop must not read the loop variable late)")
-    for r, n in (("C07.1", 4), ("C07.2", 8), ("C07.3", 12), ("C07.4", 12), ("C07.5", 1), ("C07.6", 6), ("C07.7", 40), ("C07.8", 1)):
+    # ---------------------------------------------------------------- C07.10 the target critics V' is the minimum of are, from reset on, copies of
+    # their own online critics (target_2 seeded from critic 1 makes min(target_1, target_2) the single critic 1 at the start)
+    from .C10 import check_sac_target_init
+    check_sac_target_init(s, "C07.10", necessary="V' is the minimum of the two target critics (two distinct estimators, each tracking its own online critic)")
+    for r, n in (("C07.10", 3), ("C07.1", 4), ("C07.2", 8), ("C07.3", 12), ("C07.4", 12), ("C07.5", 1), ("C07.6", 6), ("C07.7", 40), ("C07.8", 1)):
         s.floor(r, n)
